@@ -11,7 +11,7 @@ Require Import EmbossV.Lex.Proofs_Line EmbossV.Lex.Proofs_Examples EmbossV.Lex.P
 Require Import EmbossV.Lex.FmtModel EmbossV.Lex.FmtProofs.
 Require Import EmbossV.Lex.FmtTyping EmbossV.Lex.FmtProofsTotal.
 Require Import EmbossV.Lex.FmtShow EmbossV.Lex.FmtProofsIdem EmbossV.Lex.FmtRetok EmbossV.Lex.FmtProofsRetok.
-Require Import EmbossV.Lex.FmtAsserts EmbossV.Lex.FmtProofsAsserts.
+Require Import EmbossV.Lex.FmtAsserts EmbossV.Lex.FmtProofsAsserts EmbossV.Lex.FmtProofsIdem2.
 
 Theorem fmt_equivb_spec : forall T o f, fmt_equivb T o f = true <-> fmt_equiv T o f.
 Proof. exact fmt_equivb_spec_proof. Qed.
@@ -284,6 +284,42 @@ Proof. exact add_blank_rows_idem. Qed.
 
 Theorem rstrip_idempotent_partial : forall ws g, grstrip ws (grstrip ws g) = grstrip ws g.
 Proof. exact grstrip_idem. Qed.
+
+(* ------------------------------------------------------------------------------------------------
+   IDEMPOTENCE, row/column layer for ALL blocks and rows (Lex/FmtProofsIdem2.v; no padding hypothesis).
+   Everything from the blocks / rows to the rendered text -- _columnize (widths, padding, rstrip of the
+   line), _indent_blanks_and_comments, _add_blank_rows_on_dedent, _render_rows_to_text -- is a function of
+   (row name, TEXTS of the cells, indent) alone: [row_flat].  So formatting twice gives the same text AS
+   SOON AS the second run's rows have the same names, cell texts and indents as the first run's rows.
+   What remains validated per output (fmt (fmt t) = fmt t observed on every case): that premise -- the
+   parser maps the rendered text back to the same tree (C08/C09, Indent/Dedent part of the tokenizer) and
+   the handlers rebuild the same cell texts from the normalised token texts (trailing blanks of
+   Documentation / Comment tokens, Indent texts).
+   ------------------------------------------------------------------------------------------------ *)
+
+(* rstrip on strings with provenance is str.rstrip on the text *)
+Theorem rstrip_is_textual : forall ws g, flat (grstrip ws g) = rstrip ws (flat g).
+Proof. exact grstrip_flat. Qed.
+
+(* the line _columnize builds for block b among the blocks bs depends on the header cells' texts only *)
+Theorem columnize_line_depends_on_cell_texts : forall ws iw ic bs bs' b b',
+  map (fun x => row_flat (bheader x)) bs = map (fun x => row_flat (bheader x)) bs' ->
+  row_flat (bheader b) = row_flat (bheader b') ->
+  flat (aligned_line ws iw ic bs b) = flat (aligned_line ws iw ic bs' b').
+Proof. exact aligned_line_text_congr. Qed.
+
+Theorem columnize_rows_depend_on_cell_texts : forall ws iw ic bs bs' b b',
+  map (fun x => row_flat (bheader x)) bs = map (fun x => row_flat (bheader x)) bs' ->
+  row_flat (bheader b) = row_flat (bheader b') ->
+  rows_flat (bprefix b) = rows_flat (bprefix b') -> rows_flat (bbody b) = rows_flat (bbody b') ->
+  rows_flat (columnize_block ws iw ic bs b) = rows_flat (columnize_block ws iw ic bs' b').
+Proof. exact columnize_block_flat. Qed.
+
+(* what _module does with the rows of the file (both passes, rendering) depends on their cell texts only:
+   rows with equal names, cell texts and indents are rendered to the same text (or both fail) *)
+Theorem reformat_same_cell_texts_same_text_partial : forall ws iw rows rows',
+  rows_flat rows = rows_flat rows' -> module_text ws iw rows = module_text ws iw rows'.
+Proof. exact module_text_congr. Qed.
 
 (* ------------------------------------------------------------------------------------------------
    RE-TOKENIZATION, PARTIAL (single lines; Lex/FmtRetok.v).  [pieces_fit T g] is the decidable local
